@@ -335,7 +335,7 @@ fn main() {
     let big = args.thorough() || args.search;
     // exhaustive: (threads, rounds, decision depth)
     let exh: &[(usize, usize, usize)] =
-        if big { &[(2, 1, 18), (2, 2, 14), (3, 1, 10)] } else { &[(2, 1, 13), (2, 2, 10), (3, 1, 7)] };
+        if big { &[(2, 1, 18), (2, 2, 13), (3, 1, 9)] } else { &[(2, 1, 12), (2, 2, 9), (3, 1, 6)] };
     for &(n, iters, depth) in exh {
         let mut dfs = Dfs::new(depth);
         let mut runs = 0u64;
@@ -352,7 +352,7 @@ fn main() {
     }
     // random long schedules
     let mut rng = Rng::new(args.seed);
-    let cases = args.budget(700, 12000);
+    let cases = args.budget(400, 8000);
     for c in 0..cases {
         let n = rng.range(2, 4) as usize;
         let iters = rng.range(1, 3) as usize;
